@@ -255,6 +255,18 @@ class HistogramDensityMethod(BatchDetector):
         """
 
         X, _, _ = super()._validate_input(X, None, None)
+        self._update(X)
+
+    def _update(self, X):
+        """
+        Process a batch that has already been validated: a batch passed to
+        ``update``, or the proxy half of the reference split off by ``reset``
+        when ``detect_batch == 1`` (which may consist of a single row and is
+        therefore not subject to the checks for user input).
+
+        Args:
+            X (numpy.ndarray): validated batch of data.
+        """
 
         if self._drift_state == "drift":
             self.reset()
@@ -372,7 +384,7 @@ class HistogramDensityMethod(BatchDetector):
 
         if self.detect_batch == 1:
             # pass the bare values: this internal update must not fix column names
-            self.update(test_proxy.values)
+            self._update(test_proxy.values)
 
     def _build_histograms(self, dataset, min_values, max_values):
         """
